@@ -133,11 +133,28 @@ func heapOfKind(k Kind) string {
 	panic("no heap for kind " + k.String())
 }
 
-var baseHeaps = []string{"Hi", "Hc", "Hb", "Ha", "Hs", "Hf", "Hr"}
+var baseHeaps = []string{"Hi", "Hy", "Hc", "Hb", "Ha", "Hs", "Hf", "Hr"}
+
+// isByteType: locations of type byte/uint8 live in their own heap Hy, so that byte strings (str_of) are not
+// disturbed by stores of other integers (slice headers, counters, ...).
+func isByteType(t types.Type) bool {
+	if t == nil {
+		return false
+	}
+	b, ok := t.Underlying().(*types.Basic)
+	return ok && b.Kind() == types.Uint8
+}
+
+func heapFor(k Kind, t types.Type) string {
+	if k == KInt && isByteType(t) {
+		return "Hy"
+	}
+	return heapOfKind(k)
+}
 
 func heapSort(h string) string {
 	switch h {
-	case "Hi", "Hc":
+	case "Hi", "Hc", "Hy":
 		return "(Array Addr Int)"
 	case "Hb":
 		return "(Array Addr Bool)"
